@@ -243,8 +243,13 @@ func freeNBNS(c *h.Ctx, lg *evLog, mode string, clients, per int, seed int64) er
 				}
 				cn.Write(b)
 				outstanding++
-				// keep a few requests in flight so that handlers overlap
-				if outstanding >= 3 || mode == "nbns-tcp" {
+				// keep a few requests in flight so that handlers overlap; over TCP the requests are PIPELINED on the one
+				// connection in bursts of 1..16 (every reply must still be one well-formed frame for one request)
+				depth := 3
+				if mode == "nbns-tcp" {
+					depth = 1 + (k*7+cl)%16
+				}
+				if outstanding >= depth {
 					if recvOne() {
 						outstanding--
 					} else {
